@@ -263,7 +263,7 @@ def lvalue_path(fa, place, bi, si):
             alias = path_of(lvalue_term(fa, place, bi, si))
             if alias is not None:
                 return alias
-        parts = [fa.body.local_name(l) if 1 <= l <= fa.body.arg_count else fa.type_name(l)]
+        parts = [fa.escaped_name(l)]
         for e in place["p"]:
             if isinstance(e, dict) and "f" in e:
                 parts.append(e["n"])
